@@ -59,6 +59,38 @@ fn emit_history(ctx: &mut Ctx, kind: &str, templates: &[Vec<Node>], datas: &[Obj
 /// Histories over templates given as text (filter chains, very large outputs) through BOTH render APIs
 /// (`render_to` into a fresh buffer and the buffered `Template::render`), each call compared with a fresh
 /// parser on a fresh thread; judged by that comparison alone (`c09x`).
+fn run_text_hist(ctx: &mut Ctx, partials: &[PartialDef], texts: &[&str], datas: &[Object], hists: Vec<Vec<(usize, usize)>>, silent: &[usize]) {
+    let shared = build_parser(partials, Policy::Lazy);
+    let objects: Vec<_> = texts.iter().map(|s| parse_once(&shared, s)).collect();
+    for hist in hists {
+        for (pos, (ti, di)) in hist.iter().enumerate() {
+            let streamed = render_parsed(&objects[*ti], &datas[*di]);
+            let buffered = match &objects[*ti] {
+                Ok(t) => match std::panic::catch_unwind(std::panic::AssertUnwindSafe(|| t.render(&datas[*di]))) {
+                    Ok(Ok(s)) => Obs::Ok(s),
+                    Ok(Err(e)) => Obs::Err(e.to_string()),
+                    Err(e) => Obs::Panic(panic_msg(e)),
+                },
+                Err(e) => Obs::ParseErr(e.clone()),
+            };
+            // the reference: a freshly built parser on a fresh thread (with room for deep recursion)
+            let fresh = std::thread::scope(|sc| {
+                std::thread::Builder::new()
+                    .stack_size(64 << 20)
+                    .spawn_scoped(sc, || render_text(&build_parser(partials, Policy::Lazy), texts[*ti], &datas[*di]))
+                    .map(|h| h.join().unwrap_or(Obs::Panic("reference thread".into())))
+                    .unwrap_or(Obs::Panic("reference thread".into()))
+            });
+            if silent.contains(ti) {
+                // too large to print: only its effect on what follows is observed
+                continue;
+            }
+            let k = if streamed.tokens() != fresh.tokens() || buffered.tokens() != fresh.tokens() { format!("LEAK:{}:{}", hist.len(), pos) } else { format!("text:{}:{}", hist.len(), pos) };
+            ctx.emit(format!("c09x {} => {} #{}:{}", k, buffered.tokens(), crate::proto::xs(texts[*ti]), crate::proto::xs(&serde_json::to_string(&datas[*di]).unwrap_or_default())));
+        }
+    }
+}
+
 fn text_histories(ctx: &mut Ctx) {
     let partials: Vec<PartialDef> = vec![("sig".into(), Ok(vec![text("<"), out(var("name")), text(">")]))];
     let texts = [
@@ -76,8 +108,6 @@ fn text_histories(ctx: &mut Ctx) {
         d
     };
     let datas = [mk("Ann", ",", 1), mk("Bob", "b", 40)];
-    let shared = build_parser(&partials, Policy::Lazy);
-    let objects: Vec<_> = texts.iter().map(|s| parse_once(&shared, s)).collect();
     // every ordered pair of calls, plus a long alternating run; the big template only ever first
     let mut hists: Vec<Vec<(usize, usize)>> = Vec::new();
     for t in [0usize, 1, 3, 4] {
@@ -87,28 +117,23 @@ fn text_histories(ctx: &mut Ctx) {
     }
     hists.push(vec![(2, 0), (3, 0), (4, 1), (0, 1)]);
     hists.push(vec![(0, 0), (2, 1), (4, 0), (3, 1), (1, 1)]);
-    for hist in hists {
-        for (pos, (ti, di)) in hist.iter().enumerate() {
-            let streamed = render_parsed(&objects[*ti], &datas[*di]);
-            let buffered = match &objects[*ti] {
-                Ok(t) => match std::panic::catch_unwind(std::panic::AssertUnwindSafe(|| t.render(&datas[*di]))) {
-                    Ok(Ok(s)) => Obs::Ok(s),
-                    Ok(Err(e)) => Obs::Err(e.to_string()),
-                    Err(e) => Obs::Panic(panic_msg(e)),
-                },
-                Err(e) => Obs::ParseErr(e.clone()),
-            };
-            let fresh = std::thread::scope(|sc| {
-                sc.spawn(|| render_text(&build_parser(&partials, Policy::Lazy), texts[*ti], &datas[*di])).join().unwrap_or(Obs::Panic("reference thread".into()))
-            });
-            if *ti == 2 {
-                // too large to print: only its effect on what follows is observed
-                continue;
-            }
-            let k = if streamed.tokens() != fresh.tokens() || buffered.tokens() != fresh.tokens() { format!("LEAK:{}:{}", hist.len(), pos) } else { format!("text:{}:{}", hist.len(), pos) };
-            ctx.emit(format!("c09x {} => {} #{}:{}", k, buffered.tokens(), crate::proto::xs(texts[*ti]), crate::proto::xs(&serde_json::to_string(&datas[*di]).unwrap_or_default())));
-        }
+    run_text_hist(ctx, &partials, &texts, &datas, hists, &[2]);
+    // partials nested deeply at run time (bounded by the data), shallow and deep renders alternating
+    let deep: Vec<PartialDef> = vec![
+        ("deep".into(), Ok(vec![out(var("d")), text(" "), Node::Cond { c: Cond::Bin(var("d"), CmpOp::Lt, var("n")), mode: true,
+            thn: vec![Node::Assign("d".into(), var("d"), vec![FCall { name: "plus".into(), args: vec![lit_i(1)] }]), Node::Include(lit_s("deep"), vec![])], els: None, elsif: false }])),
+        ("deepr".into(), Ok(vec![out(var("d")), text(" "), Node::Cond { c: Cond::Bin(var("d"), CmpOp::Lt, var("n")), mode: true,
+            thn: vec![Node::Assign("e".into(), var("d"), vec![FCall { name: "plus".into(), args: vec![lit_i(1)] }]), Node::Render(lit_s("deepr"), RForm::Plain, vec![("d".into(), var("e")), ("n".into(), var("n"))])], els: None, elsif: false }])),
+    ];
+    let dtexts = ["{% assign d = 1 %}{% include 'deep' %}|done", "{% render 'deepr', d: 1, n: n %}|done"];
+    let ddatas: Vec<Object> = [3i64, 99, 100, 101, 102, 120].iter().map(|n| mk("x", ",", *n)).collect();
+    let mut dh: Vec<Vec<(usize, usize)>> = Vec::new();
+    for t in [0usize, 1] {
+        dh.push(vec![(t, 2), (t, 3), (t, 2), (t, 0)]);
+        dh.push(vec![(t, 5), (t, 1), (t, 4), (t, 2), (t, 0)]);
     }
+    dh.push(vec![(0, 3), (1, 2), (0, 2), (1, 3), (1, 1)]);
+    run_text_hist(ctx, &deep, &dtexts, &ddatas, dh, &[]);
 }
 
 pub fn run(ctx: &mut Ctx) {
